@@ -25,6 +25,19 @@ MAX_DISTINCT = 1_500_000      # cap on stored hashes per shard (reported if hit)
 MAX_SAMPLES = 12
 
 
+def _is_flaky(exc):
+    try:
+        from hypothesis import errors
+    except ImportError:
+        return False
+    kinds = tuple(k for k in (getattr(errors, "Flaky", None), getattr(errors, "FlakyFailure", None),
+                              getattr(errors, "FlakyStrategyDefinition", None)) if k is not None)
+    if isinstance(exc, kinds):
+        return True
+    inner = getattr(exc, "exceptions", None)          # ExceptionGroup
+    return bool(inner) and any(_is_flaky(e) or isinstance(e, PropertyFailure) for e in inner)
+
+
 class StopShrink(BaseException):
     """Deterministic shrink budget exhausted (count of body calls after first failure)."""
 
@@ -172,6 +185,19 @@ class Ctx:
             run()
         except StopShrink:
             raise self._failing from None
+        except PropertyFailure:
+            raise
+        except BaseException as exc:  # pylint: disable=broad-except
+            # Hypothesis reports "flaky" when a failing case passes on re-execution.  Every body here is a pure
+            # function of its case, so that can only mean the code under test carried state over from an earlier
+            # call (a cache, a memo).  The oracle disagreement was observed on an in-domain input against the real
+            # code: it is a property failure, not a harness fault.
+            if self._failing is not None and _is_flaky(exc):
+                fail = self._failing
+                fail.message += (" [not reproducible in isolation: the code under test behaved differently when "
+                                 "the same case was run again, i.e. it keeps state between calls]")
+                raise fail from None
+            raise
         finally:
             self._part = None
 
@@ -201,6 +227,14 @@ class Ctx:
             raise self._failing from None
         except PropertyFailure as exc:
             exc.part = part
+            raise
+        except BaseException as exc:  # pylint: disable=broad-except
+            if self._failing is not None and _is_flaky(exc):
+                fail = self._failing
+                fail.part = part
+                fail.message += (" [not reproducible in isolation: the code under test behaved differently when "
+                                 "the same history was run again, i.e. it keeps state between objects]")
+                raise fail from None
             raise
         finally:
             self._part = None
